@@ -608,6 +608,10 @@ func isMembershipPredicate(f *ssa.Function) (bool, string) {
 				return
 			}
 			if constant.BoolVal(k.Value) {
+				// "an empty list accepts anything": a return of true dominated by the len(list) == 0 edge does not count
+				if returnsUnderEmptyList(f, x) {
+					return
+				}
 				nTrue++
 			}
 		}
@@ -1070,7 +1074,21 @@ func outcomeSignatureB(w *World, fn *ssa.Function, depth int, bs bindings) []str
 		}
 		classify(ret.Results[0], b, "returns", 0)
 	}
-	return sortedBoolKeys(set)
+	// normal form: "return nil where the selected padding is nil" and "return the selected padding" are the same outcome, and
+	// whether the nil case has a return of its own is a matter of style
+	norm := map[string]bool{}
+	for k := range set {
+		switch {
+		case strings.HasPrefix(k, "returns nil when [") && strings.Contains(k, "-nonnil(*model.Padding)"):
+			k = "returns the selected padding"
+		case strings.HasPrefix(k, "returns the selected padding when ["):
+			if !strings.Contains(k, "-nonnil(*model.Padding)") {
+				k = "returns the selected padding"
+			}
+		}
+		norm[k] = true
+	}
+	return sortedBoolKeys(norm)
 }
 
 // wirePaddingOutcomes: the five padding helpers produce their results under the same facts, polarity included (a negated test in one
@@ -1592,4 +1610,54 @@ func wireBracketBalance(w *World, wc *wireCtx, r *Report, prop string, roles map
 	if nFiles == 0 {
 		r.fail(rule, "generated files found", "internal/parser", "no store into a map[string][]byte found under the generators")
 	}
+}
+
+// returnsUnderEmptyList: the return is dominated by the edge on which len(first parameter) is 0.
+func returnsUnderEmptyList(f *ssa.Function, ret *ssa.Return) bool {
+	for _, b := range f.Blocks {
+		cond := branchCond(b)
+		if cond == nil {
+			continue
+		}
+		val := true
+		for {
+			if u, ok := cond.(*ssa.UnOp); ok && u.Op == token.NOT {
+				cond, val = u.X, !val
+				continue
+			}
+			break
+		}
+		bo, ok := cond.(*ssa.BinOp)
+		if !ok {
+			continue
+		}
+		call, ok := stripIdentity(bo.X).(*ssa.Call)
+		k, ok2 := bo.Y.(*ssa.Const)
+		if !ok || !ok2 || k.Value == nil || k.Value.Kind() != constant.Int {
+			continue
+		}
+		bi, ok := call.Call.Value.(*ssa.Builtin)
+		if !ok || bi.Name() != "len" || len(call.Call.Args) != 1 || stripIdentity(call.Call.Args[0]) != ssa.Value(f.Params[0]) {
+			continue
+		}
+		n, _ := constant.Int64Val(k.Value)
+		emptyWhenTrue, known := false, false
+		switch {
+		case bo.Op == token.EQL && n == 0, bo.Op == token.LEQ && n == 0, bo.Op == token.LSS && n == 1:
+			emptyWhenTrue, known = true, true
+		case bo.Op == token.NEQ && n == 0, bo.Op == token.GTR && n == 0, bo.Op == token.GEQ && n == 1:
+			emptyWhenTrue, known = false, true
+		}
+		if !known {
+			continue
+		}
+		succ := 0
+		if emptyWhenTrue != val {
+			succ = 1
+		}
+		if edgeDominates(b, succ, ret.Block()) {
+			return true
+		}
+	}
+	return false
 }
